@@ -131,8 +131,9 @@ BackendTick ==             \* backend makes progress without the clock of the si
 Signal ==                  \* SIGINT / SIGTERM reaches main
   /\ Alive /\ ~signalled
   /\ signalled' = TRUE
-  /\ IF Grace > 0 THEN /\ phase' = "draining" /\ UNCHANGED exitCode
-                  ELSE /\ phase' = "exited" /\ exitCode' = 0                 \* main returns
+  /\ IF Grace > 0 /\ phase # "waitHealthy"     \* (no handler is installed before the first healthy check)
+       THEN /\ phase' = "draining" /\ UNCHANGED exitCode
+       ELSE /\ phase' = "exited" /\ exitCode' = 0                 \* main returns / default signal action
   /\ UNCHANGED <<checks, bad, streak, passed, loop, lists, listsAfterCancel, cancelled, clock, req, reqAt, fwdBeforeSignal, retry, slept>>
 
 CancelPolling ==           \* requestPollingCancel(): a separate step after the signal was received
